@@ -18,6 +18,7 @@ import (
 	"bytes"
 	"context"
 	"encoding/binary"
+	"errors"
 	"fmt"
 	"hash/crc32"
 	"io"
@@ -85,6 +86,171 @@ func verifC11Export(eng *Engine, slot uint16, cuts []BackupChannelCut, withStats
 	return data, stats, err
 }
 
+// ------------------------------------------------ history generator ----
+//
+// The C09 generator draws leader-epoch points rarely and only at whatever log
+// end the random walk happens to be at. A backup cut is a statement about the
+// committed watermark, so the relation between an epoch's first offset and the
+// watermark matters: verifC11GenHistory wraps the C09 world and adds what a
+// cluster does around a leader change - the first leader records its epoch at
+// offset 0, a new leader records its epoch at its log end (BeginEpoch, or
+// AppendHistory on the follower side) after the old log was either fully
+// committed or not, and then appends proposals that are not committed yet.
+// Where the epoch points end up relative to the cut is measured by labels.
+
+const verifC11AppendHistoryKind = "c11-appendhistory"
+
+// verifC11EpochStep records a leader-epoch point at the current log end of an
+// exact channel. bump=false is only used for the first point of a channel (the
+// epoch the channel was created with).
+func verifC11EpochStep(rt *rapid.T, w *verifC09World, ci int, bump bool) verifC09Step {
+	c := w.Chans[ci]
+	if bump {
+		c.Epoch++
+	}
+	c.Points = append(c.Points, EpochPoint{Epoch: c.Epoch, StartOffset: c.LEO})
+	if rapid.IntRange(0, 2).Draw(rt, "viaAppendHistory") == 0 {
+		return verifC09Step{Kind: fmt.Sprintf("%s ch%d epoch=%d start=%d", verifC11AppendHistoryKind, ci, c.Epoch, c.LEO), Ch: ci, Epoch: c.Epoch, To: c.LEO}
+	}
+	return verifC09Step{Kind: "epoch", Ch: ci, Epoch: c.Epoch}
+}
+
+// verifC11UncommittedAppend appends one exact proposal without advancing the
+// committed watermark (a leader's proposal that has not reached quorum).
+func verifC11UncommittedAppend(rt *rapid.T, w *verifC09World, ci int) verifC09Step {
+	c := w.Chans[ci]
+	prev, _ := c.tail()
+	p := w.genProposal(rt, ci, c.LEO, prev, 3)
+	app := verifC09App{Ch: ci, Recs: p.Recs, M: p.M, Base: c.LEO, ServerAlloc: rapid.Bool().Draw(rt, "serverAlloc")}
+	c.addRecords(p.Recs)
+	c.Props = append(c.Props, p)
+	return verifC09Step{Kind: "append", Ch: ci, Class: uint8(rapid.IntRange(0, 2).Draw(rt, "class")), Apps: []verifC09App{app}}
+}
+
+// verifC11LeaderChange draws the steps of one leader change of an exact
+// channel: optionally the old log is fully committed first, the new epoch is
+// recorded at the log end, optionally the new leader appends proposals that
+// stay uncommitted.
+func verifC11LeaderChange(rt *rapid.T, w *verifC09World, ci int, push func(verifC09Step)) {
+	c := w.Chans[ci]
+	if c.LEO > c.HW && rapid.IntRange(0, 2).Draw(rt, "commitAllBeforeChange") > 0 {
+		c.HW, c.HasCP = c.LEO, true
+		push(verifC09Step{Kind: "checkpoint", Ch: ci, HWs: []verifC09HW{{Ch: ci, HW: c.LEO}}})
+	}
+	push(verifC11EpochStep(rt, w, ci, true))
+	for n := rapid.IntRange(0, 2).Draw(rt, "uncommittedAfterChange"); n > 0; n-- {
+		push(verifC11UncommittedAppend(rt, w, ci))
+	}
+}
+
+func verifC11GenHistory(rt *rapid.T, minSteps, maxSteps, reopenPct int) *verifC09History {
+	w := verifC09NewWorld(rt)
+	h := &verifC09History{}
+	n := maxSteps - rapid.IntRange(0, maxSteps-minSteps).Draw(rt, "nStepsBelowMax")
+	h.States = append(h.States, w.snapshot())
+	var exact []int
+	for ci, c := range w.Chans {
+		if c.Exact {
+			exact = append(exact, ci)
+		}
+	}
+	push := func(st verifC09Step) {
+		h.Steps = append(h.Steps, st)
+		h.States = append(h.States, w.snapshot())
+	}
+	pushChange := func(ci int) { verifC11LeaderChange(rt, w, ci, push) }
+	for _, ci := range exact {
+		if rapid.IntRange(0, 3).Draw(rt, "firstEpochPoint") > 0 {
+			push(verifC11EpochStep(rt, w, ci, false))
+		}
+	}
+	var warm []string
+	warmCh := 0
+	if rapid.Bool().Draw(rt, "warmUp") {
+		warm = []string{"append", "append", "checkpoint", "adopt"}
+		warmCh = rapid.IntRange(0, len(w.Chans)-1).Draw(rt, "warmChannel")
+	}
+	// n counts the C09 steps; leader changes are extra, so the C09 step mix
+	// (retention trims need a long append/commit/adopt chain) is not diluted
+	for i := 0; i < n; i++ {
+		if i < len(warm) {
+			push(w.genChanStep(rt, warmCh, false, warm[i]))
+			continue
+		}
+		if rapid.IntRange(0, 99).Draw(rt, "leaderChange") >= 90 {
+			pushChange(rapid.SampledFrom(exact).Draw(rt, "changeChannel"))
+		}
+		push(w.genStep(rt, reopenPct))
+	}
+	if rapid.Bool().Draw(rt, "finalLeaderChange") {
+		pushChange(rapid.SampledFrom(exact).Draw(rt, "changeChannel"))
+	}
+	h.Chans = w.snapshot()
+	h.Uni = w.Uni
+	return h
+}
+
+// verifC11RunStep executes one step: the C11-only AppendHistory step here,
+// everything else through the C09 executor.
+func verifC11RunStep(eng *Engine, path string, h *verifC09History, i int) (*Engine, string) {
+	st := &h.Steps[i]
+	if !strings.HasPrefix(st.Kind, verifC11AppendHistoryKind) {
+		return verifC09RunStep(eng, path, h, i)
+	}
+	s, err := verifC09Store(eng, h.Chans[st.Ch])
+	if err != nil {
+		return eng, fmt.Sprintf("step %s: ForChannel: %v", st.Kind, err)
+	}
+	defer s.Close()
+	leo, err := s.LEOWithError()
+	if err != nil || leo != st.To {
+		return eng, fmt.Sprintf("step %s: log end %d (%v), model %d", st.Kind, leo, err, st.To)
+	}
+	if err := s.AppendHistory(channel.EpochPoint{Epoch: st.Epoch, StartOffset: st.To}); err != nil {
+		return eng, fmt.Sprintf("step %s: caller-valid mutation refused: %v", st.Kind, err)
+	}
+	return eng, ""
+}
+
+// verifC11HistoryThrough is the reference epoch history of a log cut at hw:
+// every point whose first offset is at or below hw. This is what the store
+// itself leaves when a log is truncated to hw (TruncateLogAndHistory,
+// TruncateHistoryTo: "removes history points after leo"): an epoch that begins
+// exactly at the log end is part of the log - it is the epoch of the cut's
+// checkpoint when the leader changed with nothing newer committed since.
+func verifC11HistoryThrough(points []EpochPoint, hw uint64) []channel.EpochPoint {
+	var out []channel.EpochPoint
+	for _, p := range points {
+		if p.StartOffset <= hw {
+			out = append(out, channel.EpochPoint{Epoch: p.Epoch, StartOffset: p.StartOffset})
+		}
+	}
+	return out
+}
+
+// verifC11CheckHistory compares the epoch history of a store with want.
+func verifC11CheckHistory(s *ChannelStore, want []channel.EpochPoint) string {
+	got, err := s.LoadHistory()
+	if len(want) == 0 {
+		if err == nil || !errors.Is(err, channel.ErrEmptyState) {
+			return fmt.Sprintf("epoch history %+v (%v), want none", got, err)
+		}
+		return ""
+	}
+	if err != nil {
+		return fmt.Sprintf("epoch history: %v, want %+v", err, want)
+	}
+	if len(got) != len(want) {
+		return fmt.Sprintf("epoch history %+v, want %+v", got, want)
+	}
+	for i := range got {
+		if got[i] != want[i] {
+			return fmt.Sprintf("epoch history %+v, want %+v", got, want)
+		}
+	}
+	return ""
+}
+
 // verifC11BuildSource runs a generated history on a fresh in-memory store and
 // exports it.
 func verifC11BuildSource(rt *rapid.T, dir string, maxSteps int) (*verifC11Source, func()) {
@@ -93,7 +259,7 @@ func verifC11BuildSource(rt *rapid.T, dir string, maxSteps int) (*verifC11Source
 		o.Logger = verifC09QuietLogger{}
 		o.FS = mem
 	}
-	h := verifC09GenHistory(rt, 6, maxSteps, 3)
+	h := verifC11GenHistory(rt, 6, maxSteps, 3)
 	path := filepath.Join(dir, "src")
 	eng, err := verifC09OpenEngine(path, nil)
 	if err != nil {
@@ -107,10 +273,25 @@ func verifC11BuildSource(rt *rapid.T, dir string, maxSteps int) (*verifC11Source
 	}
 	for i := range h.Steps {
 		var s string
-		eng, s = verifC09RunStep(eng, path, h, i)
+		eng, s = verifC11RunStep(eng, path, h, i)
 		if s != "" {
 			closeSrc()
 			rt.Fatalf("source history: %s\n%s", s, h.trace(i+1))
+		}
+	}
+	// the reference epoch history is the model's: make sure the source store
+	// really holds it before anything is exported
+	for _, c := range h.States[len(h.Steps)] {
+		s, err := verifC09Store(eng, c)
+		if err != nil {
+			closeSrc()
+			rt.Fatalf("source history: %v", err)
+		}
+		msg := verifC11CheckHistory(s, verifC11HistoryThrough(c.Points, ^uint64(0)))
+		s.Close()
+		if msg != "" {
+			closeSrc()
+			rt.Fatalf("source history: channel %s: %s (model of the source store)\n%s", c.Key, msg, h.trace(len(h.Steps)))
 		}
 	}
 	src := &verifC11Source{H: h, Final: h.States[len(h.Steps)], CutOf: map[int]uint64{}, Slot: uint16(rapid.IntRange(0, 1023).Draw(rt, "hashSlot"))}
@@ -208,6 +389,16 @@ func verifC11CheckRestored(eng *Engine, src *verifC11Source) string {
 				}
 			}
 		}
+		// epoch history: the source history of the log cut at the exported
+		// watermark (nothing for a channel that was not exported)
+		var wantHist []channel.EpochPoint
+		if exported {
+			wantHist = verifC11HistoryThrough(c.Points, hw)
+		}
+		if msg := verifC11CheckHistory(s, wantHist); msg != "" {
+			s.Close()
+			return fmt.Sprintf("channel %s: restored %s (source history %+v truncated to the exported watermark %d, exported=%v)", c.Key, msg, c.Points, hw, exported)
+		}
 		if exported {
 			cp, err := s.LoadCheckpoint()
 			if err != nil || cp.HW != hw || cp.Epoch != c.Epoch {
@@ -285,6 +476,34 @@ func verifC11Labels(k *kit.Case, src *verifC11Source) (trimmed, suffix bool) {
 			suffix = true
 		}
 	}
+	var at, atZero, atPos, below, above, cpEpochAt, none bool
+	for ci, hw := range src.CutOf {
+		c := src.Final[ci]
+		if len(c.Points) == 0 {
+			none = true
+		}
+		for _, p := range c.Points {
+			switch {
+			case p.StartOffset == hw:
+				at = true
+				atZero = atZero || hw == 0
+				atPos = atPos || hw > 0
+				cpEpochAt = cpEpochAt || p.Epoch == c.Epoch
+			case p.StartOffset < hw:
+				below = true
+			default:
+				above = true
+			}
+		}
+	}
+	k.LabelIf(at, "backup history: an epoch point exactly at the cut")
+	k.LabelIf(atZero, "backup history: an epoch point exactly at the cut, hw=0")
+	k.LabelIf(atPos, "backup history: an epoch point exactly at the cut, hw>0")
+	k.LabelIf(cpEpochAt, "backup history: the checkpoint's epoch begins exactly at the cut")
+	k.LabelIf(below, "backup history: an epoch point strictly below the cut")
+	k.LabelIf(above, "backup history: an epoch point above the cut (not exported)")
+	k.LabelIf(at && below && above, "backup history: points below, at and above a cut in one stream")
+	k.LabelIf(none, "backup history: an exported channel without epoch points")
 	k.LabelIf(trimmed, "backup: stream contains a retention-trimmed channel")
 	k.LabelIf(suffix, "backup: source has an uncommitted suffix above the cut")
 	k.LabelIf(len(src.CutOf) > 1, "backup: multi-channel stream")
